@@ -104,6 +104,14 @@ def plans_for(s, ctx, sym, quick, n_tlc, n_rand):
         bounds = list(s["bounds"])
     mt = s["entry"].endswith("_mt")
     P = []
+    if s.get("lattice"):
+        # encoder window refill: one byte at a time, odd piece sizes, pieces that end near each other, random
+        P += [{"k": "in1"}, {"k": "pieces", "size": 4093}, {"k": "pieces", "size": rng.choice((3, 17, 333, 1021))},
+              {"k": "lists", "ins": [], "outs": [], "irep": rng.randint(2, 600), "orep": rng.choice((0, 1, 7))},
+              {"k": "two", "at": rng.randint(1, n - 1)}, {"k": "two", "at": 4093}]
+        return P
+    if s["kind"] == "dec":
+        P.append({"k": "around_stop", "w": 6})
     # every two-piece split (files <= 4 KiB); for threaded coders and in the quick tier a seeded sample + boundaries +-1
     if n <= 4096:
         full = (not mt) and (n <= (450 if quick else 4096))
@@ -145,13 +153,13 @@ def plans_for(s, ctx, sym, quick, n_tlc, n_rand):
 
 
 # ------------------------------------------------------------------------------------------------ jobs
-def run_jobs(ctx, subjects, groups=(), parses=(), nproc=4, rec_budget=20000, timeout=1800, item_timeout=240):
+def run_jobs(ctx, subjects, groups=(), parses=(), nproc=4, rec_budget=20000, timeout=1800, item_timeout=240, strcmps=()):
     """Distribute the work over driver subprocesses (ASan+UBSan, asserts on).  A crash / sanitizer report / hang is
     attributed to the subject named in OUT.cur; the rest of that batch is resumed in a new process."""
     so = build.lib("asan")["so"]
     env = build.asan_env()
     env["PYTHONPATH"] = HERE
-    batches = [dict(so=so, rec_budget=rec_budget // nproc, item_timeout=item_timeout, subjects=[], groups=[], parses=[])
+    batches = [dict(so=so, rec_budget=rec_budget // nproc, item_timeout=item_timeout, subjects=[], groups=[], parses=[], strcmps=[])
                for _ in range(nproc)]
     for i, s in enumerate(subjects):
         d = dict(s); d["data"] = s["data"].hex()
@@ -161,13 +169,15 @@ def run_jobs(ctx, subjects, groups=(), parses=(), nproc=4, rec_budget=20000, tim
         batches[i % nproc]["groups"].append(d)
     for i, p in enumerate(parses):
         batches[i % nproc]["parses"].append(p)
+    for i, p in enumerate(strcmps):
+        batches[i % nproc]["strcmps"].append(p)
     results = []
     crashes = []
 
     def run_batch(bi, job):
         out = []
         attempt = 0
-        while job["subjects"] or job["groups"] or job["parses"]:
+        while job["subjects"] or job["groups"] or job["parses"] or job["strcmps"]:
             attempt += 1
             jp = os.path.join(ctx.workdir, "job%d_%d.json" % (bi, attempt))
             op = os.path.join(ctx.workdir, "out%d_%d.ndjson" % (bi, attempt))
@@ -183,14 +193,15 @@ def run_jobs(ctx, subjects, groups=(), parses=(), nproc=4, rec_budget=20000, tim
             cur = open(op + ".cur").read().split() if os.path.exists(op + ".cur") else ["?"]
             if rc == 0 and cur[0] == "done":
                 break
-            if cur[0] not in ("subject", "group", "parse"):
+            if cur[0] not in ("subject", "group", "parse", "strcmp"):
                 raise MachineryError("driver failed outside a subject (rc=%s, cur=%r, batch %d attempt %d):\n%s" % (rc, cur, bi, attempt, log[-3000:]))
             kind, cid = cur[0], int(cur[1])
             crashes.append(dict(kind=kind, id=cid, rc=rc, log=log[-6000:]))
             seen = {(r["kind"], r["id"]) for r in done} | {(kind, cid)}
             job = dict(job, subjects=[x for x in job["subjects"] if ("subject", x["id"]) not in seen],
                        groups=[x for x in job["groups"] if ("group", x["id"]) not in seen],
-                       parses=[x for x in job["parses"] if ("parse", x["id"]) not in seen])
+                       parses=[x for x in job["parses"] if ("parse", x["id"]) not in seen],
+                       strcmps=[x for x in job["strcmps"] if ("strcmp", x["id"]) not in seen])
             if attempt > 12:
                 raise MachineryError("driver batch keeps failing:\n" + log[-3000:])
         return out
@@ -301,7 +312,8 @@ def judge(ctx, subjects, results, crashes, prefix="slice", with_final=True):
                                   dict(kind="subject", entry=s["entry"], args=s["args"], cls=s["cls"], data=s["data"].hex(), plan=pb["plan"]))
                 continue
             key = {"accounting": "protocol:accounting:%s", "guard": "crash:guard-bytes:%s", "hang": "hang:%s",
-                   "starve": "starve:%s:no-buf-error", "leak": "leak:%s", "badfree": "leak:badfree:%s"}[w] % s["entry"]
+                   "starve": "starve:%s:no-buf-error", "leak": "leak:%s", "badfree": "leak:badfree:%s",
+                   "roundtrip": "roundtrip:%s"}[w] % s["entry"]
             if w in ("leak", "hang", "guard"):
                 key += ":" + short_cls(s["cls"])
             if key in seen:
@@ -370,7 +382,72 @@ def judge_groups(ctx, groups, results):
     return hists
 
 
+# ------------------------------------------------------------------------------------------------ text vs structure
+PREFIX_SPEC = {"": [], "x86": [["x86", {}]], "delta:dist=3": [["delta", {"dist": 3}]], "arm64:start=4096": [["arm64", {"start_offset": 4096}]]}
+
+
+def gen_str_items(ctx, quick):
+    """(G) SliceStr.tla: option strings with the options they denote."""
+    r = tlc.run("SliceStr", cfg="GenSliceStr.cfg", workers=1, timeout=600)
+    ctx.add_tlc("SliceStr", r, exhaustive=True)
+    items = []
+    for line in r.out.splitlines():
+        if line.startswith('<<"ITEM", "'):
+            items.append(json.loads(line[len('<<"ITEM", "'):-3].encode().decode("unicode_escape")))
+    if len(items) < 1000:
+        raise MachineryError("SliceStr produced %d items\n%s" % (len(items), r.out[-1500:]))
+    rng = ctx.rng
+    data = (b"".join(rng.choice([b"alpha ", b"beta", b"\x00\x00\x00", b"0123456789", b"xz "]) for _ in range(900))
+            + bytes(rng.getrandbits(8) for _ in range(300)))
+    out = []
+    enc_budget = 60 if quick else 600
+    rng.shuffle(items)
+    for it in items:
+        text = (it["prefix"] + " " if it["prefix"] else "") + it["filter"] + ":preset=%d%s" % (it["level"], "e" if it["extreme"] else "")
+        if it["opt"] != "none":
+            text += ",%s=%s" % (it["opt"], it["val"].strip('"'))
+        d = dict(text=text, filter=it["filter"], want=it["want"], prefix_spec=PREFIX_SPEC[it["prefix"]], opt=it["opt"],
+                 cls="str:%s:%s%s" % (it["filter"], it["level"], "e" if it["extreme"] else ""))
+        if it["want"]["dict"] <= (1 << 20) and enc_budget > 0:
+            enc_budget -= 1
+            d["data"] = data.hex()
+        out.append(d)
+    return out
+
+
+def judge_strcmp(ctx, items, results):
+    byid = {x["id"]: x for x in items}
+    seen = set()
+    fields = []
+    hists = []
+    for r in results:
+        if r["kind"] != "strcmp":
+            continue
+        if r.get("machinery"):
+            raise MachineryError("driver: strcmp %s: %s" % (byid[r["id"]]["text"], r["machinery"]))
+        it = byid[r["id"]]
+        ctx.case(key=("strcmp", it["text"], "data" in it))
+        if r["msg"]:
+            if ("rej", it["opt"]) in seen:
+                continue
+            seen.add(("rej", it["opt"]))
+            ctx.violation("text:str_to_filters:rejected:%s" % it["opt"], "%r -> %s" % (it["text"], r["msg"]), dict(kind="strcmp", item=it, result=r))
+            continue
+        fields.append({"e": "Fields", "text": it["text"], "opt": it["opt"], 
+                       "got": r["got"], "want": r["want"]})
+        if r["digs"]:
+            evs = [{"e": "Group", "cls": "text-vs-structure", "text": it["text"]}]
+            for d in r["digs"]:
+                evs.append({"e": "Run", "dig": d["dig"], "cfg": d["form"], "text": it["text"]})
+            hists.append(("text-vs-structure|%s|" % it["text"], evs))
+    for i in range(0, len(fields), 400):
+        hists.append(("str_to_filters|fields|", fields[i:i + 400]))
+    return hists
+
+
 def trace_key(label, e, idx):
+    if e.get("e") == "Fields":
+        return "text:str_to_filters:fields:%s" % ("preset" if e.get("opt") == "none" else e.get("opt"))
     parts = label.split("|")
     entry, cls = parts[0], parts[1]
     if len(parts) > 2 and parts[2] and e.get("e") == "Final":
@@ -395,6 +472,7 @@ def run(ctx):
         cfgs = [c + "T" for c in cfgs]          # MaxFeed = 4, MaxGrant = 3
     neg = ["MCSlicingLzma1Recomputed", "MCSlicingBcjStrict"]
     futs = start_models(cfgs + neg, workers=1 if quick else 2)
+    efuts = start_models(["MCSliceEnc", "MCSliceEncShort"], module="MCSliceEnc", workers=1)
     # (G)
     sym = gen_plans(ctx)
     ctx.log("GenSlicing: %d symbolic plans" % len(sym))
@@ -415,13 +493,19 @@ def run(ctx):
     G = c06corpus.determinism_groups(rng, quick)
     for i, g in enumerate(G):
         g["id"] = i
+    T = gen_str_items(ctx, quick)
+    for i, t in enumerate(T):
+        t["id"] = i
     ctx.log("corpus: %d subjects (%d decoder, %d encoder), %d determinism groups" % (
         len(S), sum(1 for s in S if s["kind"] == "dec"), sum(1 for s in S if s["kind"] == "enc"), len(G)))
     # heavy subjects first, round-robin
     S.sort(key=lambda s: -len(s["data"]) * (3 if s["entry"].endswith("_mt") else 1))
-    results, crashes = run_jobs(ctx, S, G, nproc=4 if quick else 6, rec_budget=22000 if quick else 220000)
+    results, crashes = run_jobs(ctx, S, G, nproc=4 if quick else 6, rec_budget=22000 if quick else 220000, strcmps=T)
+    for c in crashes:
+        if c["kind"] in ("group", "strcmp"):
+            ctx.violation("crash:%s" % c["kind"], asan_summary(c["log"]) + "\n" + c["log"][-2500:], dict(kind=c["kind"], id=c["id"]))
     hists, bad_hists, BAD = judge(ctx, S, results, crashes)
-    ghists = judge_groups(ctx, G, results)
+    ghists = judge_groups(ctx, G, results) + judge_strcmp(ctx, T, results)
     nruns = sum(r["runs"] for r in results if r["kind"] == "subject")
     ctx.log("driver: %d runs, %d lzma_code calls, %d recorded histories, %d groups" % (
         nruns, ctx.extra.get("lzma_code_calls", 0), len(hists), len(ghists)))
@@ -439,6 +523,7 @@ def run(ctx):
     ctx.sample(dict(kind="symbolic_plan", plan=sym[len(sym) // 3]))
     # (M) results
     collect_models(ctx, futs, expect_violation=neg)
+    collect_models(ctx, efuts, expect_violation=["MCSliceEncShort"])
     ctx.assumptions += [
         "SliceCoder.tla abstracts the decoders to five resume idioms (buffer copy, byte-wise fields, Stream Padding mod 4, "
         "LZMA symbol with recomputed locals, known-size end) plus simple_code(); per-format detail is in the conformance runs",
